@@ -197,6 +197,7 @@ func main() {
 	}
 	w := world.New(fmt.Sprintf("C08-%d", si))
 	defer w.Close()
+	w.CRL.Fragment.Store(si%2 == 1)
 	for i, hs := range specs {
 		if i%sn != si {
 			continue
